@@ -94,14 +94,14 @@ def eSearch (d : EDev) (r : EReq) : Option ECfg :=
 def ECfg.vco (r : EReq) (c : ECfg) : Q := eVco r c.clkiDiv c.clkfbDiv (c.divs.getD c.clkfb 0)
 
 /-- `do_finalize`:  phase = round(p*div/45);  FPHASE = phase & 7;  CPHASE = (phase >> 3) + (div - 1). -/
-def ePhaseWord (p : Q) (div : Nat) : Int := ((p.mulNat div).divNat 45).round
-def eFPhase (p : Q) (div : Nat) : Int := (ePhaseWord p div) % 8
-def eCPhase (p : Q) (div : Nat) : Int := (ePhaseWord p div) / 8 + ((div : Int) - 1)
+def ePhaseWord (p : SQ) (div : Nat) : Int := ((p.mulNat div).divNat 45).round
+def eFPhase (p : SQ) (div : Nat) : Int := (ePhaseWord p div) % 8
+def eCPhase (p : SQ) (div : Nat) : Int := (ePhaseWord p div) / 8 + ((div : Int) - 1)
 
 /-- (div, FPHASE, CPHASE) per enabled output (requested ones carry their phase, the spare feedback output phase 0). -/
 def eParams (r : EReq) (c : ECfg) : List (Int × Int × Int) :=
   c.divs.zipIdx.map fun (dv, n) =>
-    let p := match r.outs[n]? with | some o => o.out.phase | none => Q.zero
+    let p := match r.outs[n]? with | some o => o.out.phase | none => SQ.zero
     ((dv : Int), eFPhase p dv, eCPhase p dv)
 
 /-! ## iCE40 -/
@@ -198,7 +198,7 @@ def NCfg.vco (r : NReq) (c : NCfg) : Q := nVco r c.clkiDiv c.clkfbDiv
 
 /-- Numeric instance parameters of `NXPLL.do_finalize`: (REF_MMD_DIG, DIVF, [(DIVx, DELx)]).
     `REF_MMD_DIG` is the literal "1" in the code — the chosen `clki_div` is NOT placed. -/
-def nDel (p : Q) (div : Nat) : Int := (((Q.one.add (p.divNat 360)).mulNat div).trunc) - 1
+def nDel (p : SQ) (div : Nat) : Int := ((((p.divNat 360).addNat 1).mulNat div).trunc) - 1
 def nParams (r : NReq) (c : NCfg) : Nat × Int × List (Int × Int) :=
   (1, (c.clkfbDiv : Int) - 1, (c.divs.zip r.outs).map fun (dv, o) => ((dv : Int) - 1, nDel o.phase dv))
 
